@@ -49,6 +49,7 @@ def strategy(tier):
             "rest": histories(tier, max_ops=12 if big else 6, batches=True, aborts=True,
                               near_weight=4),
             "exc": st.integers(0, 2),
+            "in_handler": st.booleans(),
         }
     )
 
@@ -57,7 +58,7 @@ class _BaseAbort(BaseException):
     """Leaves the block by an exception that is not an Exception subclass."""
 
 
-def _run_exit(case, exit_kind, exit_arg, info):
+def _run_exit_inner(case, exit_kind, exit_arg, info):
     prune = bool(case["prune"])
     db = FaultDB()
     trie = impl("construct", HexaryTrie, db, prune=prune)
@@ -147,9 +148,20 @@ def _run_exit(case, exit_kind, exit_arg, info):
     return measured_w, effective_on_existing
 
 
+def _run_exit(case, exit_kind, exit_arg, info):
+    if case.get("in_handler"):
+        # the block is used while the caller is handling an unrelated exception
+        try:
+            raise LookupError("unrelated exception being handled by the caller")
+        except LookupError:
+            return _run_exit_inner(case, exit_kind, exit_arg, info)
+    return _run_exit_inner(case, exit_kind, exit_arg, info)
+
+
 def run_case(case):
     info = Info()
     n = len(case["batch"])
+    info.label("block-inside-except-handler", bool(case.get("in_handler")))
     w, eff = _run_exit(case, "commit", None, info)
     info.count("exits")
     for i in range(n + 1):
